@@ -194,6 +194,8 @@ def run(tier, seed, verdict):
     quick = tier != "thorough"
     cfgs = (["MC_C06_r1_quick.cfg", "MC_C06_r2_quick.cfg", "MC_C06_r3_quick.cfg", "MC_C06_r4_quick.cfg"] if quick
             else ["MC_C06_r1.cfg", "MC_C06_r2.cfg", "MC_C06_r3_quick.cfg", "MC_C06_r4_quick.cfg"])
+    # ints (negative too) on both sides of an ellipsis standing for 0, 1 or 2 axes, axes of pairwise different length
+    cfgs.append("MC_C06_ell.cfg")
     strides = {"MC_C06_r2_quick.cfg": 3 if quick else 1, "MC_C06_r2.cfg": 7, "MC_C06_r1.cfg": 2}
     runs = [runner.ExportRun("MC_NixIndex", c, seed, "harness.c06", stride=strides.get(c, 1), batch=400, heap="3g",
                              label=lambda v: "%s/rank%d" % ("view" if v["cfg"]["view"] else "array", len(v["cfg"]["shape"])))
